@@ -35,6 +35,19 @@ from .astutil import clone
 from .index import AnalysisError, norm
 
 
+def canon_test(t: ast.expr, pol: bool) -> tuple[ast.expr, bool]:
+    """One representation for a decision and its negation: ``not X`` -> (X, flipped);
+    ``a is not b`` / ``a != b`` / ``a not in b`` -> (``a is b`` / ``a == b`` / ``a in b``, flipped)."""
+    while isinstance(t, ast.UnaryOp) and isinstance(t.op, ast.Not):
+        t, pol = t.operand, not pol
+    if isinstance(t, ast.Compare) and len(t.ops) == 1:
+        flip = {ast.IsNot: ast.Is, ast.NotEq: ast.Eq, ast.NotIn: ast.In}.get(type(t.ops[0]))
+        if flip is not None:
+            t = ast.copy_location(ast.Compare(left=t.left, ops=[flip()], comparators=t.comparators), t)
+            pol = not pol
+    return t, pol
+
+
 @dataclass
 class Effect:
     kind: str
@@ -54,6 +67,20 @@ class Path:
     exit: str = "fall"
     value: Optional[ast.expr] = None
     exit_node: Optional[ast.AST] = None
+
+    def add_cond(self, t: ast.expr, pol: bool) -> None:
+        """Record a decision and the facts it implies: a false ``a or b`` makes both false, a true
+        ``a and b`` makes both true, a chained comparison that is true makes each link true."""
+        t, pol = canon_test(t, pol)
+        self.conds.append((t, pol))
+        if isinstance(t, ast.BoolOp) and ((isinstance(t.op, ast.Or) and not pol) or (isinstance(t.op, ast.And) and pol)):
+            for v in t.values:
+                self.add_cond(v, pol)
+        if isinstance(t, ast.Compare) and len(t.ops) > 1 and pol:
+            left = t.left
+            for op, c in zip(t.ops, t.comparators):
+                self.add_cond(ast.copy_location(ast.Compare(left=left, ops=[op], comparators=[c]), t), True)
+                left = c
 
     def copy(self) -> "Path":
         return Path(list(self.conds), dict(self.env), list(self.effects), self.exit, self.value, self.exit_node)
@@ -125,19 +152,6 @@ def subst(e: ast.expr, env: dict[str, ast.expr]) -> ast.expr:
     return _Subst(env).visit(clone(e))
 
 
-def canon_test(t: ast.expr, pol: bool) -> tuple[ast.expr, bool]:
-    """One representation for a decision and its negation: ``not X`` -> (X, flipped);
-    ``a is not b`` / ``a != b`` / ``a not in b`` -> (``a is b`` / ``a == b`` / ``a in b``, flipped)."""
-    while isinstance(t, ast.UnaryOp) and isinstance(t.op, ast.Not):
-        t, pol = t.operand, not pol
-    if isinstance(t, ast.Compare) and len(t.ops) == 1:
-        flip = {ast.IsNot: ast.Is, ast.NotEq: ast.Eq, ast.NotIn: ast.In}.get(type(t.ops[0]))
-        if flip is not None:
-            t = ast.copy_location(ast.Compare(left=t.left, ops=[flip()], comparators=t.comparators), t)
-            pol = not pol
-    return t, pol
-
-
 def _unknown(name: str) -> ast.expr:
     return ast.Call(func=ast.Name(id="UNKNOWN", ctx=ast.Load()), args=[ast.Constant(value=name)], keywords=[])
 
@@ -203,7 +217,7 @@ class Enumerator:
                 if self._contradicts(p, t, pol):
                     continue
                 q = p.copy()
-                q.conds.append(canon_test(t, pol))
+                q.add_cond(t, pol)
                 out.extend(self._values(q, arm))
             return out
         return [(p, subst(e, p.env))]
@@ -304,7 +318,7 @@ class Enumerator:
                 if self._contradicts(p, t, pol):
                     continue
                 q = p.copy()
-                q.conds.append(canon_test(t, pol))
+                q.add_cond(t, pol)
                 out.extend(self.run(block, q))
             return out
         if isinstance(st, ast.With):
